@@ -23,7 +23,8 @@ Line-protocol driver for C02 (`sqfsmodel c02`).  One operation per input line, o
   hi <n> (<ret>:<hash-hex>/<ret>:<hash-hex>/<ret>:<hash-hex>/<rt 0|1>)×n
         monitor `obsIndependent` (`Sqfs/Model/C02Worker.lean`) on what harness/h_c02_comp.c observed of a real compressor:
         per block the result of the worker copy with its history / of a fresh compressor / of a fresh copy
-        → ok | dep <index of the first block that breaks history independence, copy = original, or the codec contract>
+        → ok | dep <index of the first block that breaks history independence or copy = original>
+             | contract <index of the first block on which do_block failed or the codec contract (`obsContract`) is broken>
 -/
 import Driver.Util
 import Sqfs.Model.BlockProc
@@ -244,9 +245,10 @@ def hiOp : List String → String
     match n.toNat?, rest.mapM parseObs with
     | some n, some obs =>
       if obs.length ≠ n then "bad-op"
-      else match obsIndependent obs with
-        | none => "ok"
-        | some i => s!"dep {i}"
+      else match obsIndependent obs, obsContract obs with
+        | some i, _ => s!"dep {i}"
+        | none, some i => s!"contract {i}"
+        | none, none => "ok"
     | _, _ => "bad-op"
   | _ => "bad-op"
 
